@@ -180,7 +180,7 @@ func (f *Formatter) formatDirectorDeclaration(decl *ast.DirectorDeclaration) *De
 				if v := f.formatComment(v.Leading, " ", 0); v != "" {
 					line.Key += v
 				}
-				line.Key += fmt.Sprintf(".%s = %s; ", v.Key.String(), v.Value.String())
+				line.Key += fmt.Sprintf(".%s = %s; ", v.Key.String(), f.formatPropertyValue(v.Value))
 			}
 			if len(t.Infix) > 0 {
 				line.Key += f.formatComment(t.Infix, " ", 0)
@@ -191,7 +191,7 @@ func (f *Formatter) formatDirectorDeclaration(decl *ast.DirectorDeclaration) *De
 		case *ast.DirectorProperty:
 			line.Key += "." + t.Key.String()
 			line.Operator = " = "
-			line.Value = t.Value.String()
+			line.Value = f.formatPropertyValue(t.Value)
 			line.EndCharacter = ";"
 		}
 		lines = append(lines, line)
@@ -228,6 +228,16 @@ func (f *Formatter) formatDirectorDeclaration(decl *ast.DirectorDeclaration) *De
 		Name:   decl.Name.Value,
 		Buffer: buf.String(),
 	}
+}
+
+// Format a property value that is printed as a single literal (table key / value,
+// director property value). Strings keep their source literal: printing the decoded
+// value would turn "a%20b" into "a b" and "%25" into a bare "%".
+func (f *Formatter) formatPropertyValue(expr ast.Expression) string {
+	if s, ok := expr.(*ast.String); ok {
+		return f.formatExpression(s).String()
+	}
+	return expr.String()
 }
 
 // Format table declaration
@@ -274,8 +284,8 @@ func (f *Formatter) formatTableProperties(props []*ast.TableProperty) string {
 			Leading:      f.formatComment(prop.Leading, "\n", 1),
 			Trailing:     f.trailing(prop.Trailing),
 			Operator:     ": ",
-			Key:          f.indent(1) + prop.Key.String(),
-			Value:        prop.Value.String(),
+			Key:          f.indent(1) + f.formatPropertyValue(prop.Key),
+			Value:        f.formatPropertyValue(prop.Value),
 			EndCharacter: ",",
 		}
 		lines = append(lines, line)
